@@ -5,6 +5,7 @@
    connections), and the explicit frame corollaries. *)
 From Verif Require Import Base.Prelude Model.Stack Spec.StackObs Spec.C10Spec
   Proofs.StackLemmas Proofs.StackInv Proofs.C10Events Proofs.C10Core Proofs.C10Client.
+From Verif Require Import Model.StackX Spec.StackXSpec Proofs.StackXProofs.
 
 (* ================================================================ monitor + scope along a run *)
 Record Full (s : st) (m : mst) (sc : sst) : Prop := {
@@ -404,4 +405,69 @@ Proof.
   destruct (remove_unlisted _ p (map de_addr (dm_ents m)) (map re_addr (p_ents pe1))) as [s3 evs] eqn:Eu. cbn [fst].
   rewrite (remove_unlisted_others _ _ _ _ _ _ Eu q Hq), (handle_device_added_others _ _ _ _ _ q Hski1 Hq).
   apply set_peer_others. rewrite Hski1. exact Hq.
+Qed.
+
+(* ================================================================ teardown overlapped by another peer's registry call *)
+Lemma oos_scope_mono sc o : oos sc = true -> oos (scope sc o) = true.
+Proof. intros H. unfold scope. simpl. rewrite H. reflexivity. Qed.
+
+Lemma xfull_step s m sc o : Full s m sc ->
+  let '(m1, v) := xmon mon m o (snd (xstep s o)) in
+  Full (fst (xstep s o)) m1 (xscope scope sc o) /\
+  (oos (xscope scope sc o) = false -> v = []) /\ (forall c, In c v -> c = CL_CLIENT).
+Proof.
+  intros F. destruct o as [o|a b]; cbn [xstep xmon xscope]; [exact (full_step s m sc o F)|].
+  destruct (overlap a b) as [[[p q] ctr]|] eqn:Eo.
+  2:{ split; [exact F|]. split; [reflexivity | intros c []]. }
+  pose proof (overlap_split s a b p q ctr Eo) as Hsp. cbv zeta in Hsp.
+  pose proof (full_step s m sc a F) as H1.
+  destruct (step s a) as [s1 o1]. cbn [fst snd] in *.
+  pose proof (fun m1 (F1 : Full s1 m1 (scope sc a)) => full_step s1 m1 (scope sc a) b F1) as H2.
+  destruct (step s1 b) as [s2 o2]. cbn [fst snd] in *.
+  destruct Hsp as [Ha Hb]. rewrite Ha, Hb.
+  destruct (mon m a o1) as [m1 v1]. destruct H1 as [F1 [Hin1 Hout1]]. specialize (H2 m1 F1).
+  destruct (mon m1 b o2) as [m2 v2]. destruct H2 as [F2 [Hin2 Hout2]].
+  split; [exact F2|]. split.
+  - intros H. rewrite (Hin2 H).
+    destruct (oos (scope sc a)) eqn:E; [rewrite (oos_scope_mono _ b E) in H; discriminate|].
+    rewrite (Hin1 eq_refl). reflexivity.
+  - intros c Hc. apply in_app_or in Hc. destruct Hc; auto.
+Qed.
+
+Theorem xrun_accepted_from ops : forall s m sc, Full s m sc -> accepted (xjudge10 m sc (snd (xrun s ops))) = true.
+Proof.
+  induction ops as [|o ops IH]; intros s m sc F; [reflexivity|].
+  simpl. pose proof (xfull_step s m sc o F) as Hs.
+  destruct (xstep s o) as [s1 out]. destruct (xrun s1 ops) as [s2 tr] eqn:Er. simpl in *.
+  destruct (xmon mon m o out) as [m1 v]. destruct Hs as [F1 [Hin Hout]]. simpl.
+  specialize (IH s1 m1 (xscope scope sc o) F1). rewrite Er in IH. simpl in IH. unfold accepted in *. simpl. rewrite IH, andb_true_r.
+  unfold excuses. destruct (oos (xscope scope sc o)) eqn:E.
+  - apply excused_client. exact Hout.
+  - rewrite (Hin eq_refl). reflexivity.
+Qed.
+
+Theorem xrun_accepted ops : accepted (xjudge10 minit sinit (snd (xrun init ops))) = true.
+Proof. apply xrun_accepted_from. exact full_init. Qed.
+
+Theorem xrun_only_client_from ops : forall s m sc, Full s m sc -> only_client (xjudge10 m sc (snd (xrun s ops))) = true.
+Proof.
+  induction ops as [|o ops IH]; intros s m sc F; [reflexivity|].
+  simpl. pose proof (xfull_step s m sc o F) as Hs.
+  destruct (xstep s o) as [s1 out]. destruct (xrun s1 ops) as [s2 tr] eqn:Er. simpl in *.
+  destruct (xmon mon m o out) as [m1 v]. destruct Hs as [F1 [_ Hout]]. simpl.
+  specialize (IH s1 m1 (xscope scope sc o) F1). rewrite Er in IH. simpl in IH. unfold only_client in *. simpl. rewrite IH, andb_true_r.
+  apply forallb_forall. intros c Hc. rewrite (Hout c Hc). reflexivity.
+Qed.
+
+Theorem xrun_only_client ops : only_client (xjudge10 minit sinit (snd (xrun init ops))) = true.
+Proof. apply xrun_only_client_from. exact full_init. Qed.
+
+(* the registries after an overlap: exactly p's entries are gone and q's call took effect as if it
+   had come after the teardown - in particular an entry q obtained is there *)
+Theorem overlap_is_sequential s a b p q ctr : overlap a b = Some (p, q, ctr) ->
+  fst (xstep s (During a b)) = fst (step (fst (step s a)) b) /\
+  snd (xstep s (During a b)) = snd (step s a) ++ snd (step (fst (step s a)) b).
+Proof.
+  intros Eo. cbn [xstep]. rewrite Eo. destruct (step s a) as [s1 o1]. cbn [fst snd].
+  destruct (step s1 b) as [s2 o2]. split; reflexivity.
 Qed.
